@@ -432,6 +432,8 @@ def check_header_fields(ck, env, RP="C01"):
     vpos, vneg = set(), set()
     for c, m, pat, subj in val_calls:
         p, n = truthy_edges(add, lambda e, c=c: e is c)
+        if not p and not n:
+            raise AnalysisError("HTTPHeaders.add: the result of %s is not used as a branch condition the rule can read" % q.unparse(c)[:70])
         vpos |= p
         vneg |= n
         value_lang(RP + ".header-value", add, c, m, pat, "the field value")
@@ -482,6 +484,8 @@ def check_header_fields(ck, env, RP="C01"):
         for c, m, pat, subj in prc:
             if subj is not None and v.id in q.names_in(subj) and not _is_blacklist(pl, c):
                 p, n = truthy_edges(pl, lambda e, c=c: e is c)
+                if not p and not n:
+                    raise AnalysisError("HTTPHeaders.parse_line: the result of %s is not used as a branch condition the rule can read" % q.unparse(c)[:70])
                 pos |= p
                 neg |= n
                 value_lang(R, pl, c, m, pat, "the continuation text")
